@@ -38,7 +38,35 @@ func MustParse(s string) Pattern {
 	return pat
 }
 
+// stripTypeLists removes bracketed type parameter and type argument lists
+// from a symbol name, turning "pkg.G[T any]" into "pkg.G" and
+// "(*pkg.G[int]).M" into "(*pkg.G).M". The index is keyed by generic
+// origins.
+func stripTypeLists(name string) string {
+	if !strings.Contains(name, "[") {
+		return name
+	}
+	var b strings.Builder
+	depth := 0
+	for _, r := range name {
+		switch r {
+		case '[':
+			depth++
+		case ']':
+			if depth > 0 {
+				depth--
+			}
+		default:
+			if depth == 0 {
+				b.WriteRune(r)
+			}
+		}
+	}
+	return b.String()
+}
+
 func symbolToIndexSymbol(name string) IndexSymbol {
+	name = stripTypeLists(name)
 	if len(name) == 0 {
 		return IndexSymbol{}
 	}
